@@ -330,17 +330,52 @@ def check_aliases(rep, facts, pipe, und):
     ra = facts.funcs.get('resolve_register_aliases')
     if ra is None:
         raise AnalysisError('anchor vanished: pass resolve_register_aliases')
-    res = Resolver(facts, ra)
     tpos = table_position(pipe, 'resolve_register_aliases', 'constants')
+    # the pass and the module-level helpers it hands the item / the table to (a split into "compute the fields" + "rebuild")
+    regions = {id(ra): (ra, Resolver(facts, ra), tpos)}
+    for n in ast.walk(ra):
+        if isinstance(n, ast.Call) and isinstance(n.func, ast.Name) and n.func.id in facts.funcs and id(facts.funcs[n.func.id]) not in regions \
+                and n.func.id not in ('log_conversion', 'lookup_register'):
+            callee = facts.funcs[n.func.id]
+            cparams = [a.arg for a in callee.args.posonlyargs + callee.args.args]
+            ctpos = None
+            for i_, a in enumerate(n.args):
+                if regions[id(ra)][1].param_index(a) == tpos and i_ < len(cparams):
+                    ctpos = i_
+            for kw in n.keywords:
+                if kw.arg in cparams and regions[id(ra)][1].param_index(kw.value) == tpos:
+                    ctpos = cparams.index(kw.arg)
+            if ctpos is not None:
+                regions[id(callee)] = (callee, Resolver(facts, callee), ctpos)
+
+    def region_of(node):
+        cur = node
+        while cur is not None and id(cur) not in regions:
+            cur = getattr(cur, '_parent', None)
+        return regions[id(cur)] if cur is not None else regions[id(ra)]
+
+    class _Res:
+        def literal(self, node):
+            return region_of(node)[1].literal(node)
+
+        def param_index(self, node):
+            return region_of(node)[1].param_index(node)
+    res = _Res()
 
     def is_table(node):
-        return res.param_index(node) == tpos
+        r_ = region_of(node)
+        return r_[1].param_index(node) == r_[2]
+
+    def walk_regions():
+        for fn_, _, _ in regions.values():
+            for n_ in ast.walk(fn_):
+                yield n_
 
     # the field filter: literal sets of field names used in membership tests / intersections
     regs = None
     regs_node = ra
     cands = []
-    for n in ast.walk(ra):
+    for n in walk_regions():
         if isinstance(n, ast.Compare) and len(n.ops) == 1 and isinstance(n.ops[0], (ast.In, ast.NotIn)) and not is_table(n.comparators[0]):
             cands.append((n.comparators[0], n))
         elif isinstance(n, ast.BinOp) and isinstance(n.op, ast.BitAnd):
@@ -451,7 +486,7 @@ def check_aliases(rep, facts, pipe, und):
     # truthiness test of the looked-up value is wrong because 0 (x0, shift amount 0) is a legal constant value
     looked = set()
     lookups = 0
-    for n in ast.walk(ra):
+    for n in walk_regions():
         is_lookup = (isinstance(n, ast.Subscript) and isinstance(n.ctx, ast.Load) and is_table(n.value)) or \
             (isinstance(n, ast.Call) and isinstance(n.func, ast.Attribute) and n.func.attr == 'get' and is_table(n.func.value))
         if is_lookup:
@@ -461,11 +496,11 @@ def check_aliases(rep, facts, pipe, und):
                 looked.add(par.targets[0].id)
             if isinstance(par, ast.NamedExpr) and isinstance(par.target, ast.Name):
                 looked.add(par.target.id)
-    member = [n for n in ast.walk(ra) if isinstance(n, ast.Compare) and len(n.ops) == 1 and isinstance(n.ops[0], (ast.NotIn, ast.In)) and is_table(n.comparators[0])]
-    none_tests = [n for n in ast.walk(ra) if isinstance(n, ast.Compare) and len(n.ops) == 1 and isinstance(n.ops[0], (ast.Is, ast.IsNot))
+    member = [n for n in walk_regions() if isinstance(n, ast.Compare) and len(n.ops) == 1 and isinstance(n.ops[0], (ast.NotIn, ast.In)) and is_table(n.comparators[0])]
+    none_tests = [n for n in walk_regions() if isinstance(n, ast.Compare) and len(n.ops) == 1 and isinstance(n.ops[0], (ast.Is, ast.IsNot))
                   and isinstance(n.left, ast.Name) and n.left.id in looked and isinstance(n.comparators[0], ast.Constant) and n.comparators[0].value is None]
     truthy = []
-    for n in ast.walk(ra):
+    for n in walk_regions():
         tests = []
         if isinstance(n, (ast.If, ast.While, ast.IfExp)):
             tests.append(n.test)
@@ -478,9 +513,9 @@ def check_aliases(rep, facts, pipe, und):
                     par = getattr(x, '_parent', None)
                     if not isinstance(par, ast.Compare) and not (isinstance(par, ast.Call) and par is not x):
                         truthy.append(n if not isinstance(n, ast.comprehension) else t)
-    keyg = [n for n in ast.walk(ra) if isinstance(n, ast.Compare) and len(n.ops) == 1 and isinstance(n.ops[0], (ast.NotIn, ast.In))
+    keyg = [n for n in walk_regions() if isinstance(n, ast.Compare) and len(n.ops) == 1 and isinstance(n.ops[0], (ast.NotIn, ast.In))
             and not is_table(n.comparators[0]) and res.literal(n.comparators[0]) is not None and set(res.literal(n.comparators[0])) == regs]
-    iter_regs = [n for n in ast.walk(ra) if isinstance(n, (ast.For, ast.comprehension)) and res.literal(n.iter) is not None and set(res.literal(n.iter)) == regs]
+    iter_regs = [n for n in walk_regions() if isinstance(n, (ast.For, ast.comprehension)) and res.literal(n.iter) is not None and set(res.literal(n.iter)) == regs]
     for t in truthy:
         rep.fail(Finding('R11.3.lookup', 'resolve_register_aliases', t,
                          'whether a register field names a constant is decided by the truthiness of the looked-up value: a constant equal to 0 (an alias of x0, a zero shift amount) is '
@@ -604,6 +639,13 @@ def check_modifiers(rep, facts, und):
         v, node = ret[1], ret[2]
         if v[0] == 'call' and v[1] == 'parse_immediate':
             continue
+        if v[0] == 'call' and v[1] in facts.funcs and not any(a[0] == 'star' for a in v[2]):
+            # the arm is a helper (one parser per modifier): what it returns
+            r_ = w.eval_fn(facts.funcs[v[1]], v[2], v[3], p, {})
+            if r_ is not None:
+                v = r_
+        if v[0] == 'ifexp' and all(x[0] == 'new' for x in (v[2], v[3])):
+            v = v[2]
         if v[0] != 'new' or not facts.is_subclass(v[1], 'Expr'):
             und.append('parse_immediate returns something that is not an expression object: {}'.format(show(v)[:60]))
             continue
